@@ -67,6 +67,82 @@ def make_case(rng, tid):
     return {"tid": tid, "prog": prog, "records": records, "cfg": cfg, "dialect": dialect}
 
 
+GROUP_METHODS = ("collect_paths", "fast_forward_paths", "next_paths", "collect_by_line", "fast_forward_by_line", "next_by_line")
+
+
+def _group_work(args):
+    """the header names of a csvpath are the cells of the file's first non-blank record also when it runs as a member of a
+    named-paths group behind a member that gives ITS OWN line another header (append()), and in a later run on the same
+    CsvPaths instance: the member's trace is validated by the same run machine as a standalone run"""
+    import os
+    from lib import grouprun, pharness
+
+    seed, gi = args
+    rng = random.Random(seed * 9176 + gi)
+    case = make_case(rng, gi)
+    if not any(case["records"]):
+        return {"skip": True}
+    case["prog"]["comps"] = case["prog"]["comps"] + [lang.assign(lang.var("nh"), lang.fn("count_headers"))]
+    case["cfg"]["keepUnmatched"] = False
+    tagger = '~ id: tagger ~ $data[*][ append("tag", "v") ]'
+    plain = grouprun.member_text(case, ident="plain")
+    method = GROUP_METHODS[gi % len(GROUP_METHODS)]
+    # docs/functions/replace.md: in a by-line run the appended value "will be visible to any siblings below" the appending member -
+    # there the appending member comes AFTER the observed one (the header names are still each csvpath's own)
+    serial = method.endswith("_paths")
+    order = [tagger, plain] if serial else [plain, tagger]
+    pi = order.index(plain)
+    r = grouprun.Recorder()
+    try:
+        with scratch.silence():
+            cp = grouprun.setup_project("hdrs", case["records"], {"g": order, "g2": [plain]}, **case["dialect"])
+            r.install()
+            pharness.run_method(cp, method, "g", "data")
+            pharness.run_method(cp, "collect_paths", "g2", "data")          # a later run on the same instance
+    except Exception:
+        import traceback
+
+        return {"harness": traceback.format_exc()[-1200:], "texts": [tagger, plain], "records": case["records"], "method": method}
+    finally:
+        r.uninstall()
+    if len(r.members) != 3:
+        return {"harness": f"{len(r.members)} members created for 3 csvpaths", "method": method}
+    out = []
+    for wi, (mi, collecting, way) in enumerate(((pi, method == "collect_paths", method + (", behind" if serial else ", in front of") + " a member that appends a header"),
+                                               (2, True, "collect_paths, a later run on the same instance"))):
+        try:
+            rec = grouprun.member_trace(gi * 4 + wi, case, r.members[mi], collecting=collecting, records=case["records"])
+        except runtrace.OutOfModel:
+            return {"oom": True}
+        out.append((rec, {"way": way, "csvpath": plain, "records": case["records"], "dialect": case["dialect"],
+                          "variables": repr(r.members[mi]["p"].variables)[:400]}))
+    return {"recs": out}
+
+
+def groups_pre(rep, tier):
+    n = 90 if tier == "quick" else 3000
+    outs = common.pmap(_group_work, [(common.seed(), i) for i in range(n)], initializer=scratch.enter_scratch, chunksize=2)
+    recs, infos = [], {}
+    for o in outs:
+        if "harness" in o:
+            raise runfam.MachineryError(str(o)[:1500])
+        for rec, info in o.get("recs", []):
+            recs.append(rec)
+            infos[rec["tid"]] = info
+    res, verdicts = runtrace.validate(recs)
+    rep.add_tlc("RunTrace: a member behind a header-appending member, and in a later run on the same instance", res)
+    bad = 0
+    for rec in recs:
+        v = verdicts.get(rec["tid"])
+        if v is None:
+            raise runfam.MachineryError("no verdict for a group member trace")
+        if v[0] != "ok" and runfam.field_of(v[0]) in JUDGED:
+            bad += 1
+            rep.violation({"kind": "group-member-trace-rejected", "field": v[0], "at_event": v[1], "expected_by_spec": v[2], **infos[rec["tid"]]})
+    rep.extra["group_member_traces"] = len(recs)
+    rep.extra["group_member_traces_rejected"] = bad
+
+
 def main(tier):
     import checks.runfam as rf
 
@@ -74,7 +150,8 @@ def main(tier):
     orig = gen.make_case
     gen.make_case = lambda rng, tid, **kw: make_case(rng, tid)
     try:
-        return rf.run(PID, tier, groups=("fidelity",), judged=JUDGED, ncases=n, seed_salt=600, methods=("collect", "next"))
+        return rf.run(PID, tier, groups=("fidelity",), judged=JUDGED, ncases=n, seed_salt=600, methods=("collect", "next"),
+                      pre=lambda rep: groups_pre(rep, tier))
     finally:
         gen.make_case = orig
 
